@@ -1,5 +1,6 @@
 import LassoProofs.Lemmas.Conc
 import LassoProofs.Lemmas.SerdeT
+import LassoModel.Extracted
 /-
   C03 — concurrent interning is atomic: one key per string under every schedule.
 
@@ -188,5 +189,15 @@ end
 example :
     let s := run (fun _ => 0) 255 (init 8 1000 [[.intern [1]], [.intern [1], .get [1]]]) [0, 1, 0, 0, 0, 0, 0, 1, 1, 1]
     (s.log.filterMap toldOf) = [([1], 0), ([1], 0), ([1], 0)] := by decide
+
+/-! ### Tie to the source
+
+The machine fetches a key index in ONE atomic step (`locked x false`: `key.fetch_add(1)`), and consults
+the counter nowhere else.  The extractor lists every atomic operation on `self.key` of
+`threaded_rodeo.rs`; outside the `verif_*` audit hook these must be exactly the two `fetch_add`s of the
+two interning entry points. -/
+theorem key_allocation_atomic :
+    ((Extracted.atomicOps.filter fun op => op.role == .keyCounter).map fun op => op.kind) = [.fetchAdd, .fetchAdd] := by
+  decide
 
 end Lasso.C03
